@@ -514,9 +514,24 @@ impl LinearModel {
         out.push_str(&format!(" obj: {}\n", objective));
 
         out.push_str("Subject To\n");
+        // names generated for unnamed rows must not repeat a name the user gave
+        // to another row, nor each other
+        let mut taken: std::collections::HashSet<String> = self
+            .constraints
+            .iter()
+            .map(|c| c.name())
+            .filter(|name| !name.is_empty())
+            .collect();
         for (i, c) in self.constraints.iter().enumerate() {
             let name = if c.name().is_empty() {
-                format!("c{}", i + 1)
+                let mut index = i + 1;
+                loop {
+                    let candidate = format!("c{}", index);
+                    if taken.insert(candidate.clone()) {
+                        break candidate;
+                    }
+                    index += 1;
+                }
             } else {
                 c.name()
             };
